@@ -400,11 +400,11 @@ def oracle(sc, res):
     # the observation's token, replies B to block requests
     end = None                 # None | ("final", code) | ("error", name)
     ended_by_fetch = False
-    arrived = []               # (rep, obs) of the notifications that arrived before the end, in order
+    arrived = []               # (rep, obs, position in the log) of the notifications that arrived before the end
     served = []                # (rep served from, block number, how) of the block replies before the end
-    for ev in res["served"]:
+    for pos, ev in enumerate(res["served"]):
         if ev[0] == "N":
-            arrived.append((ev[1], ev[2]))
+            arrived.append((ev[1], ev[2], pos))
         elif ev[0] == "B":
             served.append(ev[1:])
             if ev[3] == "neterr":
@@ -430,10 +430,12 @@ def oracle(sc, res):
     # freshness order of the arrivals (all within far less than 128 s; the first response has Observe 1)
     last = 1
     accepted = []
-    for rep, obs in arrived:
+    freshest_pos = None
+    for rep, obs, pos in arrived:
         if rfc_fresher(last, 0, obs, 0):
             accepted.append(rep)
             last = obs
+            freshest_pos = pos
     # ---- what was handed over
     items, k = [], 0
     while k < len(seen) and seen[k][0] == "item":
@@ -458,7 +460,7 @@ def oracle(sc, res):
             j += 1
         if j == len(accepted):
             return (f"handed over representations {full}: not a freshness-ordered subsequence of the notifications "
-                    f"that arrived {arrived}"), "bw:order"
+                    f"that arrived {[a[:2] for a in arrived]}"), "bw:order"
         j += 1
     cancelled = sc.get("cancel_at") is not None and sc["cancel_at"] in full
     if cancelled:
@@ -491,16 +493,21 @@ def oracle(sc, res):
     if end is not None and end[0] == "final":
         if not items or items[-1][0] != end[1] or items[-1][1] != b"final":
             return f"the final response ({end[1]}) was not the last thing handed over: {items}", "bw:final-lost"
-    if ended_by_fetch or (end is not None and end[0] == "error"):
+    if ended_by_fetch or end is not None:
+        # (the queue between the lower observation and the loop is lossy: a notification not yet fetched when the
+        # final response arrives is replaced by it, as an older notification is by a newer one; the final response
+        # being handed over last was demanded above)
         return "", None
     # ---- the freshest notification that arrived, if the server let its body through
     if accepted:
         f = accepted[-1]
         spec = sc["reps"][f]
-        # its download was consistent iff, after it arrived, blocks 1..n-1 were each served "ok" from representation f
-        # (block 0 came with the notification)
-        got = [num for (rep, num, how) in served if rep == f and how == "ok"]
-        bad = [(rep, num, how) for (rep, num, how) in served if rep == f and how != "ok"]
+        # its download was consistent iff, after it arrived, every block reply came unharmed ("ok") from
+        # representation f and blocks 1..n-1 were all among them (block 0 came with the notification; a reply may
+        # still have gone to the fetch of an older notification, which then fails on the ETag -- harmless)
+        after = [e[1:] for e in res["served"][freshest_pos + 1:] if e[0] == "B"]
+        got = [num for (rep, num, how) in after if rep == f and how == "ok"]
+        bad = [(rep, num, how) for (rep, num, how) in after if rep != f or how != "ok"]
         clean = not bad and all(got.count(n) >= 1 for n in range(1, spec[0]))
         if clean and (not full or full[-1] != f):
             return (f"the freshest notification that arrived (representation {f}) was served completely and "
